@@ -59,7 +59,7 @@ def run(ctx):
     def one(i):
         cp, tp = os.path.join(d, "cases.%d" % i), os.path.join(d, "trace.%d" % i)
         vlib.write_ndjson(cp, parts[i])
-        p = vlib.run_harness(ctx.harness, ["closenotify", "-cases", cp, "-out", tp, "-seed", str(ctx.seed), "-repo", vlib.REPO] + ([] if i == 0 else ["-x", "watchdog=no"]), timeout=2400)
+        p = vlib.run_harness(ctx.harness, ["closenotify", "-cases", cp, "-out", tp, "-seed", str(ctx.seed), "-repo", vlib.REPO] + ([] if i == 0 else ["-x", "watchdog=no"]), timeout=(300 if quick else 2400))
         if p.returncode != 0:
             raise vlib.Infra("closenotify driver failed: " + p.stderr[-2000:])
         return vlib.read_ndjson(tp)
